@@ -174,7 +174,49 @@ func ReturnSuccess(ret *ssa.Return) Tri {
 	if idx < 0 {
 		return Yes
 	}
-	return errValueNil(ret.Results[idx], ret.Block(), map[ssa.Value]bool{})
+	return errValueNil(RetResult(ret, idx), ret.Block(), map[ssa.Value]bool{})
+}
+
+// RetResult returns the i-th result of a return, looking through the spill
+// slots go/ssa introduces for functions with defers (results are stored to
+// locals, rundefers runs, and the locals are re-loaded).
+func RetResult(ret *ssa.Return, i int) ssa.Value {
+	return ResolveSpill(ret.Results[i])
+}
+
+// ResolveSpill: if v is a load of a local whose last store in the same block
+// (before the load) is known, return the stored value.
+func ResolveSpill(v ssa.Value) ssa.Value {
+	ld, ok := v.(*ssa.UnOp)
+	if !ok || ld.Op != token.MUL {
+		return v
+	}
+	al, ok := ld.X.(*ssa.Alloc)
+	if !ok {
+		return v
+	}
+	b := ld.Block()
+	idx := IdxIn(ld)
+	for {
+		for i := idx - 1; i >= 0; i-- {
+			if st, ok := b.Instrs[i].(*ssa.Store); ok && st.Addr == ssa.Value(al) {
+				return st.Val
+			}
+			if c, ok := b.Instrs[i].(ssa.CallInstruction); ok {
+				// the address may escape to a call only if it is an argument
+				for _, a := range c.Common().Args {
+					if a == ssa.Value(al) {
+						return v
+					}
+				}
+			}
+		}
+		if len(b.Preds) != 1 {
+			return v
+		}
+		b = b.Preds[0]
+		idx = len(b.Instrs)
+	}
 }
 
 func errValueNil(v ssa.Value, at *ssa.BasicBlock, seen map[ssa.Value]bool) Tri {
